@@ -227,6 +227,10 @@ add("cumsum.mean", "Series.mean", lambda d: d.x.cumsum().mean())
 add("cummax.count", "Series.count", lambda d: d.x.cummax().count())
 add("rolling(2).sum.sum", "Series.sum", lambda d: d.x.rolling(2).sum().sum())
 add("cumsum.groupby(series).sum", "groupby(series).sum", lambda d: d.x.cumsum().groupby(d.k).sum())
+# the grouper is the streaming frame's own index (an index-like grouper; repeated labels on the time grid)
+for op in ("sum", "count", "mean", "size", "var"):
+    add("groupby(index).%s" % op, "groupby(series).%s" % op, lambda d, op=op: getattr(d.groupby(d.index).x, op)())
+GINDEX = ["groupby(index).%s" % op for op in ("sum", "count", "mean", "size", "var")]
 # aggregations of an aggregation's running result (class Frames: evaluated on every update)
 add("groupby.sum|sum", "Series.sum", lambda d: d.groupby("k").x.sum().sum())
 add("groupby.sum|mean", "Series.mean", lambda d: d.groupby("k").x.sum().mean())
@@ -289,7 +293,7 @@ def _mixed_batch(pre, bounds):
 SPECS["split:(x+x.sum()).sum"] = F.Spec("split:(x+x.sum()).sum", "Series.sum", "split", lambda d: (d.x + d.x.sum()).sum(), _mixed_sum, classify=CLS)
 SPECS["split:x+x.sum()"] = F.Spec("split:x+x.sum()", "elementwise", "split", lambda d: d.x + d.x.sum(), _mixed_batch, classify=CLS)
 SECOND = [k for k in SPECS if k not in PERBATCH and k not in GROUP and k not in REDUCE_V and k not in REDUCE_K and k not in UNDER
-          and k not in PERBATCH2]
+          and k not in PERBATCH2 and k not in GINDEX]
 ZERO = ["Series.mean", "DataFrame.mean", "Series.sum", "groupby(col).mean", "groupby(series).mean", "groupby(col).mean[frame]",
         "Series.var", "(-x).mean", "cumsum.mean"]
 UNDER_Q = [k for k in UNDER if not (k.startswith(("[y>1]", "[k==a]")) and ("mean" in k or "count" in k))]
@@ -310,7 +314,9 @@ def plan(ctx):
                 F.Suite(SECOND, "kv", {1: 2, 2: 2, 3: 1}),
                 F.Suite(SECOND, "kv3", {4: 1}),
                 F.Suite(SECOND, "inc", {3: 2, 4: 1}),
-                F.Suite(ZERO, "vz", {1: 2, 2: 2, 3: 2, 4: 1})]
+                F.Suite(ZERO, "vz", {1: 2, 2: 2, 3: 2, 4: 1}),
+                F.Suite(GINDEX, "v", {1: 2, 2: 2, 3: 2, 4: 0}, grid="ns"),
+                F.Suite(GINDEX, "kv3", {2: 2, 3: 1})]
     return [F.Suite(REDUCE_V, "v", {1: 1, 2: 1, 3: 1}),
             F.Suite(REDUCE_SERIES, "v", {4: 0}),
             F.Suite(REDUCE_K, "k", {1: 1, 2: 1, 3: 1, 4: 1}),
@@ -326,7 +332,9 @@ def plan(ctx):
             F.Suite(PERBATCH2, "kv3", {3: 0}),
             F.Suite(SECOND, "kv3", {1: 1, 2: 1, 3: 1}),
             F.Suite(SECOND, "inc", {3: 0}),
-            F.Suite(ZERO, "vz", {1: 1, 2: 1, 3: 1})]
+            F.Suite(ZERO, "vz", {1: 1, 2: 1, 3: 1}),
+            F.Suite(GINDEX, "v", {1: 1, 2: 1, 3: 1}, grid="ns"),
+            F.Suite(GINDEX, "kv3", {2: 1, 3: 0})]
 
 
 RULE = ("every table of R rows over (k, x) with k in {a,b}, x in {1,2,NaN} (family v: k fixed; k: x fixed; kv: all six rows; "
